@@ -239,6 +239,8 @@ func init() {
 						return kxNote(mm, "ecdh: RA")
 					}
 				}
+			case "redeliver":
+				// the genuine message is delivered again: the next confirmB step is a second call on the same initiator object
 			case "adv":
 				// what the adversary did is visible in the next step's delivered values
 			case "respond":
